@@ -22,6 +22,11 @@ pub fn check_term(s: &mut Sess, rep: &mut Report, t: RegLan, k: usize, small_pro
     // the manager's own 'static references afterwards
     let mut raw: Vec<(*const aws_smt_strings::regular_expressions::RE, usize)> = Vec::new();
     let mut over = false;
+    let mut over_time = false;
+    // wall-clock budget (skip only, never a verdict): terms under the bounded-progress verdict get none,
+    // their closures have a few dozen elements
+    let limit_ms = if small_profile { u64::MAX } else { 4 * CLOSURE_MS.load(std::sync::atomic::Ordering::Relaxed) };
+    let t0 = std::time::Instant::now();
     let res = guard(|| {
         let mut it = s.m.iter_derivatives(t);
         loop {
@@ -32,11 +37,19 @@ pub fn check_term(s: &mut Sess, rep: &mut Report, t: RegLan, k: usize, small_pro
                         over = true;
                         break;
                     }
+                    if raw.len() % 32 == 0 && t0.elapsed().as_millis() as u64 > limit_ms {
+                        over_time = true;
+                        break;
+                    }
                 }
                 None => break,
             }
         }
     });
+    if over_time {
+        rep.inc("skipped_derivative_time_budget");
+        return;
+    }
     if let Err(msg) = res {
         s.viol(rep, "closure", "closure:panic", format!("iter_derivatives({}) panicked: {}", term_text(t), msg), k);
         return;
